@@ -15,6 +15,7 @@ from jaxtyping import Array, Float, Int, Bool
 from .utils.linalg import invert_matrix, invert_diagonal
 
 from .utils.dataclass import dataclass
+from dataclasses import field
 
 
 @dataclass(kw_only=True)
@@ -45,6 +46,8 @@ class GaussianMeasure(factor.ConjugateFactor):
     Sigma: Float[Array, "R D D"] = None
     ln_det_Lambda: Float[Array, "R"] = None
     ln_det_Sigma: Float[Array, "R"] = None
+    lnZ: Float[Array, "R"] = field(default=None, init=False)
+    mu: Float[Array, "R D"] = field(default=None, init=False)
 
     def __post_init__(self):
         if self.nu is None:
